@@ -34,6 +34,21 @@ func (v1 Vector3f) EqualWithEpsilon(v2 Vector3f, epsilon float64) bool {
 		math.Abs((float64)(v1.z-v2.z)) <= epsilon
 }
 
+// IsFinite reports whether no coordinate is NaN or infinite.
+func (v1 Vector3f) IsFinite() bool {
+	return v1.IsWithin(math.MaxFloat32)
+}
+
+// IsWithin reports whether every coordinate is a number in [-limit, limit].
+func (v1 Vector3f) IsWithin(limit float64) bool {
+	for _, c := range [3]float32{v1.x, v1.y, v1.z} {
+		if !(math.Abs((float64)(c)) <= limit) {
+			return false
+		}
+	}
+	return true
+}
+
 func (v1 *Vector3f) Equal(v2 Vector3f) bool {
 	return v1.x == v2.x && v1.y == v2.y && v1.z == v2.z
 }
